@@ -171,12 +171,25 @@ def contradictory(run):
     for a, p in lits(run.guards()):
         if seen.setdefault(a, p) != p:
             return True
+    # the same condition evaluated twice with different outcomes: infeasible when nothing that can change its operands
+    # happened in between (any store / delete / call of one of the object's own methods starts a new epoch)
     whole = {}
-    for g, p in run.guards():
-        if g[0] == "not":
-            g, p = g[1], not p
-        if whole.setdefault(g, p) != p and _stable_sym(g):
-            return True
+    epoch = 0
+    for rec in run.recs:
+        if rec.cond is not None and rec.pol is not None:
+            g, p = rec.cond, rec.pol
+            if g[0] == "not":
+                g, p = g[1], not p
+            prev = whole.get(g)
+            if prev is not None and prev[0] != p and (prev[1] == epoch or _stable_sym(g)):
+                return True
+            whole[g] = (p, epoch)
+        for e in rec.effects:
+            if e.kind in ("store", "aug", "del"):
+                epoch += 1
+            elif e.kind == "call" and e.value[1][0] == "attr" and e.value[1][1] == SELF and run.evalr.cls is not None \
+                    and run.evalr.prog.find_method(run.evalr.cls, e.value[1][2]) is not None:
+                epoch += 1
     return False
 
 
@@ -218,3 +231,48 @@ def lits(guards):
 
 def loc(func, node):
     return "%s:%s" % (func.file, getattr(node, "lineno", "?"))
+
+
+def resolve_under(s, F):
+    """replace (a if c else b) by a / b where formula F decides c"""
+    from sa import guards as G
+
+    def fn(x):
+        if x[0] == "ife":
+            try:
+                if G.implies(F, x[1])[0]:
+                    return x[2]
+                if G.implies(F, mk_not(x[1]))[0]:
+                    return x[3]
+            except AnalysisError:
+                return None
+        return None
+    return G.renorm(G.subst(s, fn))
+
+
+def ife_alts(s):
+    """the alternatives of a (possibly nested) conditional expression at the top of s"""
+    if s[0] == "ife":
+        return ife_alts(s[2]) + ife_alts(s[3])
+    return [s]
+
+
+def is_helper(fn):
+    """a same-class method that is not one of the functions the rules are anchored on (introduced by a later clean-up);
+    the path enumerator inlines such calls, and the AST-level rules attribute their bodies to their callers"""
+    from sa.paths import anchors
+    return fn.cls is not None and fn.name not in anchors() and fn.kind == "method"
+
+
+def owners(ctx, fn, _seen=None):
+    """the anchor functions through which a helper is reached (fn itself if it is an anchor)"""
+    if not is_helper(fn):
+        return {fn.qual}
+    seen = _seen if _seen is not None else set()
+    if fn.qual in seen:
+        return set()
+    seen.add(fn.qual)
+    out = set()
+    for s in ctx.cg.callers_of(fn.qual):
+        out |= owners(ctx, s.caller, seen)
+    return out
